@@ -9,7 +9,7 @@ EXPLANATION = (
     "exponent used by Server::eval is invert(oprf_key + from_bytes_mod_order(PRF output for the tag)) - it depends "
     "(by data or control flow) on the server key material and on the tag byte and on nothing random - and the "
     "evaluated point is exponent * decompressed request point; (R3) Client::finalize hashes input, tag byte and "
-    "the unblinded point, in this order, and outputs the first 32 bytes of the digest; (R4) the per-tag PRF value is derived from the covering tree node over exactly the bits after its prefix, both in eval and for the nodes puncture re-creates (C10.R4 re-run), so it does not change with the puncture history.  NOT decided: that "
+    "the unblinded point, in this order, and outputs the first 32 bytes of the digest; (R4) the per-tag PRF value is derived from the covering tree node over exactly the bits after its prefix, both in eval and for the nodes puncture re-creates (C10.R4 re-run), so it does not change with the puncture history; (R5) key-state import replaces all three key components unconditionally with the exported ones (C11.R4 re-run), so synchronised replicas answer identically.  NOT decided: that "
     "unblinding cancels blinding (group algebra), unlinkability (cryptographic).")
 ASSUMPTIONS = ["curve25519-dalek scalar/point arithmetic is total and correct; OsRng is the OS generator"]
 TRUSTED = []
@@ -131,3 +131,8 @@ def run(ctx):
     from .c10 import descent_rules
     descent_rules(ctx, "C12.R4")
     ctx.floor("C12.R4", 5)
+    # ---- R5 = C11.R4: replicas that share key state (feature key-sync) hold exactly the exporter's keys, so they
+    # compute the same function of (tag, input)
+    from .c11 import export_import
+    export_import(ctx, "C12.R5")
+    ctx.floor("C12.R5", 6)
